@@ -46,7 +46,7 @@ func post_ws_Write(c *websocketTransport, b []byte, res0 int, res1 error) bool {
 
 // Read(b): data comes only from the reader of a binary or text message; a message that ended yields (n, nil) and the
 // next Read moves on to the next message. Explored for up to two skipped control frames (stated bounded).
-//@ verify (*websocketTransport).Read pre=pre_ws post=post_ws_Read props=C17
+//@ verify (*websocketTransport).Read pre=pre_ws post=post_ws_Read,post_ws_Read_keeps props=C17
 //@ loop (*websocketTransport).Read 0 unroll 3 bounded
 func post_ws_Read(c *websocketTransport, old_c websocketTransport, res0 int, res1 error) bool {
 	r := vs.TraceFind("Reader).Read")
@@ -71,4 +71,19 @@ func post_ws_Read(c *websocketTransport, old_c websocketTransport, res0 int, res
 		return res1 == nil && c.reader == nil
 	}
 	return res1 == vs.TraceRet[error](r, 1)
+}
+
+// ... and until that reader reports the end of its message it stays the current one - however few bytes a read
+// returned (a fragmented message, or a short socket read, delivers a message in pieces): the next Read continues
+// the same message instead of skipping to the next one.
+func post_ws_Read_keeps(c *websocketTransport, old_c websocketTransport, res0 int, res1 error) bool {
+	r := vs.TraceFind("Reader).Read")
+	if r < 0 || vs.TraceRet[error](r, 1) == io.EOF {
+		return true
+	}
+	if old_c.reader != nil {
+		return c.reader == old_c.reader
+	}
+	n := vs.TraceCount("NextReader")
+	return n >= 1 && c.reader == vs.TraceRet[io.Reader](vs.TraceFindNth("NextReader", n-1), 1)
 }
